@@ -55,6 +55,9 @@ type vWCase struct {
 	Attack     string `json:"attack"`
 	ForeignKey string `json:"foreignKey"`
 	OtherLabel string `json:"otherLabel"`
+	Compatible bool   `json:"compatible"` // the model's expectation; only used to choose the size sweep
+	Pad        int    `json:"pad"`        // extra payload bytes of this run
+	FixedPad   bool   `json:"fixedPad"`   // replay: use Pad as given
 }
 
 // vWLine: the recorded outcome of one case (all fields always present)
@@ -387,7 +390,13 @@ func (c *vWCase) attackStream(stream []byte) ([]byte, string) {
 
 // ---- one case ------------------------------------------------------------------
 
+// vWPad: 0..15, spread over the cases
+func vWPad(id int) int { return int((uint32(id) * 2654435761) >> 28) }
+
 func vWRun(t *testing.T, s *vSink, id int, c vWCase) (l vWLine) {
+	if c.Pad < 0 {
+		c.Pad = vWPad(id)
+	}
 	l.Ev, l.Case, l.vWCase = "WireCase", id, c
 	l.Reply = "none"
 	nw := vNewNet(int64(id))
@@ -423,6 +432,11 @@ func vWRun(t *testing.T, s *vSink, id int, c vWCase) (l vWLine) {
 		rand.Read(junk)
 		payload = append(payload, junk...)
 	}
+	// the size walks through every residue modulo the cipher's block size over consecutive cases
+	// (encryption version 0 pads; a plaintext that ends on a block boundary is the special case)
+	pad := make([]byte, c.Pad)
+	rand.Read(pad)
+	payload = append(payload, pad...)
 
 	// capture what the sender emits
 	var mu sync.Mutex
@@ -1120,10 +1134,25 @@ func TestVerifWireCases(t *testing.T) {
 				if journal != "" {
 					_ = os.WriteFile(journal, []byte(fmt.Sprint(ids[i])), 0o644)
 				}
-				l := vWRun(t, s, ids[i], all[i])
-				b, _ := json.Marshal(l)
-				w.Write(b)
-				w.WriteByte('\n')
+				c := all[i]
+				pads := []int{-1}
+				if c.FixedPad {
+					pads[0] = c.Pad
+				} else if c.Compatible && c.Attack == "none" && c.Msg != "ping" && c.Msg != "indirect" && c.Msg != "tcpping" {
+					// a message that must arrive is sent in every size modulo the cipher's block size
+					for p := 0; p < 16; p++ {
+						if p != vWPad(ids[i]) {
+							pads = append(pads, p)
+						}
+					}
+				}
+				for _, p := range pads {
+					c.Pad = p
+					l := vWRun(t, s, ids[i], c)
+					b, _ := json.Marshal(l)
+					w.Write(b)
+					w.WriteByte('\n')
+				}
 				w.Flush()
 			}
 			_ = s.Close()
